@@ -11,6 +11,7 @@ import (
 	"log/slog"
 	"os"
 	"reflect"
+	"runtime/debug"
 	"strings"
 	"time"
 	"unsafe"
@@ -366,6 +367,66 @@ func emptyGroupGivenToWith(kind int) (evals int, viols []vcommon.Violation) {
 	return
 }
 
+// wideWith: wide but shallow - one With carrying n attributes, for every n on a grid that walks
+// the rendered size through every buffer growth step and size limit up to about 36 KiB; then a
+// sibling is derived and everybody logs. Compared with the same loggers built alone.
+func wideWith(kind int) (evals int, viols []vcommon.Violation) {
+	old := debug.SetGCPercent(-1) // a collection would empty sync.Pool at an arbitrary moment
+	defer debug.SetGCPercent(old)
+	attrs := func(n int) []any {
+		var a []any
+		for i := 0; i < n; i++ {
+			a = append(a, fmt.Sprintf("k%04d", i), 100000000+i)
+		}
+		return a
+	}
+	for n := 20; n <= 1600; n += 20 {
+		evals++
+		w := &sink{}
+		root := newRoot(kind, w)
+		parent := root.With("a", 1)
+		c := parent.With(attrs(n)...)
+		d := parent.With("d", 4)
+		type probe struct {
+			name  string
+			l     *logger.Logger
+			alone func(*logger.Logger) *logger.Logger
+		}
+		probes := []probe{
+			{"sibling derived after the wide one", d, func(r *logger.Logger) *logger.Logger { return r.With("a", 1).With("d", 4) }},
+			{"the wide logger", c, func(r *logger.Logger) *logger.Logger { return r.With("a", 1).With(attrs(n)...) }},
+			{"parent", parent, func(r *logger.Logger) *logger.Logger { return r.With("a", 1) }},
+			{"the wide logger again", c, func(r *logger.Logger) *logger.Logger { return r.With("a", 1).With(attrs(n)...) }},
+			{"a grandchild of the wide logger", c.WithGroup("g").With("z", 26), func(r *logger.Logger) *logger.Logger {
+				return r.With("a", 1).With(attrs(n)...).WithGroup("g").With("z", 26)
+			}},
+		}
+		for _, p := range probes {
+			w.chunks = nil
+			p.l.Info("probe", "p", "v")
+			got := strings.Join(w.chunks, "")
+			w2 := &sink{}
+			p.alone(newRoot(kind, w2)).Info("probe", "p", "v")
+			want := strings.Join(w2.chunks, "")
+			if got != want {
+				viols = append(viols, vcommon.Violation{Scenario: "W-" + handlerNames[kind] + "-wide-With",
+					Fingerprint: fmt.Sprintf("wide-with|%s|%d|%s", handlerNames[kind], n, p.name),
+					Message:     fmt.Sprintf("C03 (%s): parent = root.With(a=1); c = parent.With(%d attributes); d = parent.With(d=4): %s wrote\n   %q\nbuilt alone from a fresh root it writes\n   %q", handlerNames[kind], n, p.name, clipMid(got), clipMid(want)),
+					Witness:     map[string]any{"handler": handlerNames[kind], "attributes": n, "logger": p.name}})
+				return
+			}
+		}
+	}
+	return
+}
+
+func clipMid(s string) string {
+	if len(s) > 400 {
+		return s[:200] + "…" + s[len(s)-160:]
+	}
+	return s
+}
+
 func clipS(s string) string {
 	if len(s) > 300 {
 		return s[:300] + "…"
@@ -400,6 +461,13 @@ func main() {
 		viols = append(viols, v...)
 	}
 	cov["empty_group_given_to_With_cases"] = emptyEvals
+	wideEvals := 0
+	for kind := 0; kind < 3; kind++ {
+		n, v := wideWith(kind)
+		wideEvals += n
+		viols = append(viols, v...)
+	}
+	cov["wide_With_cases"] = wideEvals
 	var searches []*vstate.Result
 	for kind := 0; kind < 3; kind++ {
 		kind := kind
